@@ -50,6 +50,9 @@ class TupleMeanState(base.CallableMetric):
     return TupleMeanState(tuple(MeanState().new(x) for x in inputs))
 
   def merge(self, other: TupleMeanState):
+    # Nothing to merge from a state that has not seen any input.
+    if not other.states:
+      return
     if not self.states:
       self.states = tuple(MeanState() for _ in other.states)
     for state, state_other in zip(self.states, other.states, strict=True):
